@@ -109,7 +109,8 @@ def build_body(body: Dict[str, Any], req_wire: Dict[str, Any], is_sse: bool) -> 
     return json.dumps(msgs[0], ensure_ascii=body.get("ensure_ascii", True)).encode(), msgs, False
 
 
-NOISE_KINDS = ["ping-data", "typed-nodata", "comment", "id-only", "retry-only", "blank", "empty-data", "unknown-field", "message-nodata", "typed-then-comment"]
+NOISE_KINDS = ["ping-data", "typed-nodata", "comment", "id-only", "retry-only", "blank", "empty-data", "unknown-field", "message-nodata", "typed-then-comment",
+               "damaged-json", "damaged-json-typed", "json-not-a-message", "damaged-array"]
 
 
 def noise_block(kind: str, enc: Dict[str, Any]) -> str:
@@ -128,6 +129,12 @@ def noise_block(kind: str, enc: Dict[str, Any]) -> str:
         "unknown-field": f"foo:{sp}bar{eol}{eol}",
         "message-nodata": f"event:{sp}message{eol}{eol}",
         "typed-then-comment": f"event:{sp}endpoint{eol}: c{eol}{eol}",
+        # events whose data is not a JSON-RPC message (a server bug, a proxy that cut an event short): they carry nothing
+        # for the application and take nothing away from the events around them
+        "damaged-json": f'data:{sp}{{"jsonrpc":"2.0","id":{eol}{eol}',
+        "damaged-json-typed": f"event:{sp}message{eol}data:{sp}{{oops}}{eol}{eol}",
+        "json-not-a-message": f'data:{sp}{{"status":"ok"}}{eol}{eol}',
+        "damaged-array": f"data:{sp}[1,{eol}{eol}",
     }[kind]
 
 
